@@ -282,10 +282,17 @@ type flowNode struct {
 	utracker *state.TxTracker
 }
 
-type testCfg struct{ delay int }
+type testCfg struct {
+	delay   int
+	mempool bool // RequestMempool (the shipped default): the first check in sync asks for the mempool, the in-sync notification comes with the next
+}
 
 func newFlowNode(store *VStore, bu *Universe, tu *TxUniverse, delay int, startID int64) *flowNode {
-	f := &flowNode{ctx: context.Background(), store: store, bu: bu, tu: tu, cfg: testCfg{delay}}
+	return newFlowNodeCfg(store, bu, tu, testCfg{delay: delay}, startID)
+}
+
+func newFlowNodeCfg(store *VStore, bu *Universe, tu *TxUniverse, tc testCfg, startID int64) *flowNode {
+	f := &flowNode{ctx: context.Background(), store: store, bu: bu, tu: tu, cfg: tc}
 	f.boot(startID)
 	return f
 }
@@ -299,7 +306,7 @@ func (f *flowNode) boot(startID int64) {
 func (f *flowNode) bootErr(startID int64) error {
 	cfg := testConfig()
 	cfg.SafeTxDelay = f.cfg.delay
-	cfg.RequestMempool = false
+	cfg.RequestMempool = f.cfg.mempool
 	if startID >= 0 {
 		cfg.StartHash = f.bu.HashOf(startID)
 	}
@@ -659,7 +666,9 @@ func runTxFlow(c *Case) ([]Obs, any) {
 				if next == nil {
 					return finish(ERR)
 				}
-				if err := f.node.ProcessBlock(ctx, next); err != nil {
+				perr := f.node.ProcessBlock(ctx, next)
+				nstate.BlockProcessed()
+				if perr != nil {
 					return finish(ERR)
 				}
 				return finish(OK)
